@@ -154,7 +154,15 @@ func sMulC(a string, c int64) string {
 	return app("*", sInt(c), a)
 }
 
-func memSort(s Sort) string { return "(Array Int (Array Int " + string(s) + "))" }
+// ghost memories are named "<elem sort>#<channel>": same element sort, separate memory
+func (s Sort) elem() string {
+	if i := strings.Index(string(s), "#"); i >= 0 {
+		return string(s)[:i]
+	}
+	return string(s)
+}
+
+func memSort(s Sort) string { return "(Array Int (Array Int " + s.elem() + "))" }
 
 // ---------------------------------------------------------------------------
 // solver back ends
